@@ -23,8 +23,8 @@ ASSUMPTIONS = [
     "plain classes with ClassVar annotations are outside the domain (whether a ClassVar is a 'field' of a non-dataclass is not defined by the statement)",
 ]
 PLAN = {"quick": dict(cases=60000), "thorough": dict(cases=2000000)}
-FLOORS = {"quick": {"iteritems_checked": 50000, "itervalues_checked": 50000, "oneshot_checked": 8000, "kinds": 44},
-          "thorough": {"iteritems_checked": 1500000, "itervalues_checked": 1500000, "oneshot_checked": 250000, "kinds": 44}}
+FLOORS = {"quick": {"iteritems_checked": 50000, "itervalues_checked": 50000, "oneshot_checked": 8000, "kinds": 48},
+          "thorough": {"iteritems_checked": 1500000, "itervalues_checked": 1500000, "oneshot_checked": 250000, "kinds": 48}}
 
 
 @dataclasses.dataclass
@@ -32,6 +32,35 @@ class DC:
     a: int
     b: typing.Any
     c: typing.Any = None
+
+
+@dataclasses.dataclass
+class FalsyDC:
+    """A structured object that is falsy (it wraps an empty list and has a length): still an object with fields."""
+    rows: typing.Any
+    total: typing.Any = 0
+
+    def __len__(self):
+        return 0
+
+
+class FalsyPlain:
+    a: typing.Any
+    b: typing.Any
+
+    def __init__(self, a, b):
+        self.a, self.b = a, b
+
+    def __bool__(self):
+        return False
+
+
+class FalsyNT(typing.NamedTuple):
+    first: typing.Any
+    second: typing.Any
+
+    def __bool__(self):
+        return False
 
 
 @dataclasses.dataclass
@@ -174,6 +203,11 @@ class ViewDict(dict):
         return [(k, self[k]) for k in self]
 
 
+class FalsyMapping(CustomMapping):
+    def __bool__(self):
+        return False
+
+
 class OneShot:
     """A one-shot iterator that knows what it will yield."""
 
@@ -232,12 +266,14 @@ def make(rng):
 
             ref = reordered()
             return "OrderedDict-reordered", reordered, list(ref.items()), list(ref.values())
+        if kind == "CustomMapping" and rng.random() < 0.4:
+            return "FalsyMapping", (lambda: FalsyMapping(dict(d))), list(d.items()), list(d.values())
         if kind == "dict" and rng.random() < 0.3:
             ref = ViewDict(d)
             return "ViewDict", (lambda: ViewDict(d)), list(ref.items()), list(ref.values())
         return kind, (lambda: mk(d)), list(d.items()), list(d.values())
     if r < 0.40:
-        which = rng.choice(["DC", "DCPrivate", "DCSlots", "NT", "NT", "NT1", "NT3", "UNT2", "UNT2", "UNT1", "UNT3", "Plain", "PlainChild", "PlainChildRedeclares", "DCChild", "SlotsOnly", "SlotsArgs", "SlotsArgsChild", "VarsOnly"])
+        which = rng.choice(["DC", "DCPrivate", "DCSlots", "NT", "NT", "NT1", "NT3", "UNT2", "UNT2", "UNT1", "UNT3", "Plain", "PlainChild", "PlainChildRedeclares", "DCChild", "SlotsOnly", "SlotsArgs", "SlotsArgsChild", "VarsOnly", "FalsyDC", "FalsyPlain", "FalsyNT"])
         a, b, c = atom(rng), atom(rng), atom(rng)
         if which == "DC":
             return which, (lambda: DC(1, a, b)), [("a", 1), ("b", a), ("c", b)], [1, a, b]
@@ -259,6 +295,12 @@ def make(rng):
             return which, (lambda: NT1(a)), [("only", a)], [a]
         if which == "NT3":
             return which, (lambda: NT3(a, b, c)), [("p", a), ("q", b), ("r", c)], [a, b, c]
+        if which == "FalsyDC":
+            return which, (lambda: FalsyDC(a, b)), [("rows", a), ("total", b)], [a, b]
+        if which == "FalsyPlain":
+            return which, (lambda: FalsyPlain(a, b)), [("a", a), ("b", b)], [a, b]
+        if which == "FalsyNT":
+            return which, (lambda: FalsyNT(a, b)), [("first", a), ("second", b)], [a, b]
         if which == "Plain":
             return which, (lambda: Plain(a, b)), [("a", a), ("b", b)], [a, b]
         if which == "SlotsArgs":
